@@ -82,6 +82,20 @@ Mutants ==
     \cup (IF Deep THEN UNION {{SetBytes(b, i, <<x>>) : x \in {0, 1, 128, 255}} : i \in 1..Len(b)} ELSE {})     \* every byte forced to a boundary value
   : t \in (IF Deep THEN DeepBases ELSE Bases) }
 
+\* ---- twins (C02): two inputs that agree on the declared extent of the top-level item and differ in every byte after it; what a decoder
+\* returns may depend on the declared extent only (the library ignores what follows the top-level item)
+TwinBases == {t \in (IF Deep THEN DeepBases ELSE Bases) : t.ty = 1}
+\* outside the extent the twin keeps every type and length byte (so that it stays as well-formed as the original) and changes every
+\* tag, value and padding byte
+TypeLenBytes(b) == UNION {{h + 3, h + 4, h + 5, h + 6, h + 7} : h \in HeadersAt(b, 1, Len(b))}
+Twins ==
+  UNION {
+    LET b == Enc(t) keep == TypeLenBytes(b) IN
+      {[a |-> SetBytes(b, 5, U32(n)),
+        b |-> [i \in 1..Len(b) |-> IF i > 8 + n /\ i \notin keep THEN (b[i] + 1) % 256 ELSE SetBytes(b, 5, U32(n))[i]], extent |-> 8 + n] :
+         n \in 0..(Len(b) - 9)}
+  : t \in TwinBases }
+
 \* ---- accepted non-canonical encodings (C18): non-zero padding, over-long big integers, odd booleans
 NonCanon ==
      {U24(4325382) \o <<7>> \o U32(3) \o <<97, 98, 99>> \o p : p \in {<<1,2,3,4,5>>, <<0,0,0,0,255>>}}
@@ -95,6 +109,7 @@ NonCanon ==
 Init == CASE Mode = "trees" -> c \in {[kind |-> "tree", tree |-> t] : t \in Trees}
           [] Mode = "mutants" -> c \in {[kind |-> "bytes", bytes |-> b] : b \in Mutants}
           [] Mode = "noncanon" -> c \in {[kind |-> "bytes", bytes |-> b] : b \in NonCanon}
+          [] Mode = "twins" -> c \in {[kind |-> "twins", a |-> w.a, b |-> w.b, extent |-> w.extent] : w \in Twins}
 Next == UNCHANGED c
 Spec == Init /\ [][Next]_vars
 
@@ -120,8 +135,11 @@ FixedPoint ==
     LET r == Parse(c.bytes, FALSE) IN
       r.ok => (Canon(Canon(c.bytes)) = Canon(c.bytes) /\ Parse(Canon(c.bytes), FALSE).item = r.item)
 
+\* the specification's own parser does not look beyond the declared extent of the top-level item
+TwinsOK == c.kind = "twins" => LET ra == Parse(SubSeq(c.a, 1, c.extent), FALSE) rb == Parse(SubSeq(c.b, 1, c.extent), FALSE) IN ra = rb
 Export ==
   IF c.kind = "tree" THEN [kind |-> "tree", tree |-> c.tree, bytes |-> Enc(c.tree)]
+  ELSE IF c.kind = "twins" THEN [kind |-> "twins", bytes |-> c.a, twin |-> c.b, extent |-> c.extent, same |-> Parse(c.a, FALSE).ok = Parse(c.b, FALSE).ok]
   ELSE LET r == Parse(c.bytes, FALSE) IN
        IF r.ok THEN [kind |-> "bytes", bytes |-> c.bytes, accept |-> TRUE, tree |-> r.item, canon |-> Enc(r.item), strict |-> Parse(c.bytes, TRUE).ok]
        ELSE [kind |-> "bytes", bytes |-> c.bytes, accept |-> FALSE, why |-> r.why]
